@@ -185,6 +185,12 @@ class Effects:
             ps = {x[1] for x in walk(t[1]) if x[0] == "param"}
             return bool(ps) and ps <= SCALAR_TUPLE_PARAMS
         if k == "sub":
+            # a SLICE of an array made from a parameter (np.asarray(shape)[::-1]) is an array view, not a scalar element: when the caller
+            # passed an ndarray, np.asarray returns that very array and an augmented assignment on the slice writes into it
+            base = t[1]
+            if t[2][0] == "slice" and base[0] == "call" and callee(base) in ("numpy.asarray", "numpy.asanyarray", "numpy.atleast_1d", "numpy.array", "numpy.ravel"):
+                if not (callee(base) == "numpy.array" and kw(base, "copy") in (None, ("const", True))):
+                    return False
             ps = {x[1] for x in walk(t[1]) if x[0] == "param"}
             return (bool(ps) and ps <= SCALAR_TUPLE_PARAMS) or self.is_scalar(t[1])
         if k == "param":
